@@ -263,6 +263,7 @@ Lemma encoder_encode_meta e b e' :
   e_meta e' = e_meta e /\ e_blocks e' = e_blocks e /\ e_prefix e' = e_prefix e /\ e_interval e' = e_interval e.
 Proof.
   unfold encoder_encode. intros H.
+  destruct (si_max_bs (e_si e) <? block_len b); [discriminate|].
   apply bind_ok in H. destruct H as (wr & _ & H).
   destruct (match si_total (e_si e) with Some t => (t <? wr) | None => false end); [discriminate|].
   destruct (8 <? N.of_nat (length b)); [discriminate|].
